@@ -113,6 +113,22 @@ Definition mk_datetime_checked (dt : date_v * time_v) (us : Z) : option datetime
 (* int(s) as used by timestamp2datetime on a digit string *)
 Definition int_of_str (s : str) : option Z := parse_int s.
 
+(* ---- tracked Json / array values: which (object, attribute) is notified when the value is edited in place ------------- *)
+Inductive tval : Type :=
+| TPlain (payload : Z)                      (* a plain dict / list / scalar *)
+| TTracked (owner attr payload : Z).        (* a TrackedValue: obj_ref() = owner, .attr = attr *)
+Definition tv_is_tracked (v : tval) : bool := match v with TTracked _ _ _ => true | TPlain _ => false end.
+Definition tv_owner_is (v : tval) (obj : Z) : bool := match v with TTracked o _ _ => o =? obj | TPlain _ => false end.
+Definition tv_attr_is (v : tval) (attr : Z) : bool := match v with TTracked _ a _ => a =? attr | TPlain _ => false end.
+Definition tv_payload (v : tval) : Z := match v with TTracked _ _ p => p | TPlain p => p end.
+Definition tv_notifies (v : tval) : option (Z * Z) := match v with TTracked o a _ => Some (o, a) | TPlain _ => None end.
+Definition tval_eqb (a b : tval) : bool :=
+  match a, b with
+  | TPlain p, TPlain q => p =? q
+  | TTracked o a p, TTracked o' a' p' => (o =? o') && (a =? a') && (p =? p')
+  | _, _ => false
+  end.
+
 (* ---- timedelta arithmetic ---------------------------------------------------------------------------------------------- *)
 Definition us_per_day : Z := 86400000000.
 Definition td_total_us (t : td_v) : Z := td_days t * us_per_day + td_secs t * 1000000 + td_us t.
